@@ -130,6 +130,22 @@ def run(chk):
             f["min depth"] = fmin
             m = {"model": "linear", "min depth": float(round(fmin * rng.uniform(0.0, 0.8))), "max depth": float(round(fmax * rng.uniform(0.6, 1.2))),
                  "top temperature": rng.choice([300.0, -1]), "bottom temperature": rng.choice([1500.0, -1])}
+        elif wi < 27:
+            # every model kind of every feature type once, whatever the random choices: the adiabatic model with each of its
+            # three sentinels resolved on its own (wi 9..17), the others with random parameters
+            if wi < 18:
+                m = {"model": "adiabatic"}
+                key = ["potential mantle temperature", "thermal expansion coefficient", "specific heat"][(wi - 9) // 3]
+                m[key] = {"potential mantle temperature": g.num(1200, 1800, 1), "thermal expansion coefficient": g.num(1e-5, 5e-5, 7),
+                          "specific heat": g.num(800, 1500, 1)}[key]
+            else:
+                allowed = {"continental plate": ["uniform", "linear", "chapman"], "oceanic plate": ["half space model", "plate model", "plate model constant age"],
+                           "mantle layer": ["uniform", "linear", "adiabatic"]}[kind]
+                want = allowed[((wi - 18) // 3) % 3]
+                for _try in range(200):
+                    m = g.temp_model(kind, fmin, fmax, centre=(0.0, 0.0), spherical=False, variable_spreading=0)
+                    if m["model"] == want:
+                        break
         else:
             m = g.temp_model(kind, fmin, fmax, centre=(0.0, 0.0), spherical=False, variable_spreading=0)    # the closed form below takes one velocity
         m.pop("operation", None)
